@@ -486,7 +486,14 @@ pub fn build(flavor: Flavor, cfg: &Cfg) -> Result<Arc<dyn Drv>, String> {
                         .unwrap();
                 }),
             };
-            r.map(|c| Arc::new(AsyncDrv(c, e)) as Arc<dyn Drv>).map_err(err)
+            let d = r.map(|c| Arc::new(AsyncDrv(c, e)) as Arc<dyn Drv>).map_err(err)?;
+            if cfg.manual_ticker {
+                // the processor task takes the manual ticker when it first runs
+                if !d.drive_until(&|| stretto::verif::ticker::manual_installed(), Duration::from_secs(30)) {
+                    return Err("the processor task did not start within 30 s".into());
+                }
+            }
+            Ok(d)
         }
     }
 }
